@@ -140,17 +140,44 @@ func (m *Machine) globalAxioms() []*Term {
 
 // ---------- solving ----------
 
-func (o *Obligation) script() string {
+// dropForalls removes top-level universally quantified conjuncts (sound: weakens hypotheses).
+func (c *Ctx) dropForalls(t *Term) *Term {
+	switch t.op {
+	case "and":
+		var parts []*Term
+		for _, a := range t.args {
+			parts = append(parts, c.dropForalls(a))
+		}
+		return c.And(parts...)
+	case "forall":
+		return c.T
+	}
+	return t
+}
+
+func (o *Obligation) script() string { return o.scriptMode(false) }
+
+// scriptMode(qf=true): quantified hypotheses are replaced by their engine-side ground instances.
+func (o *Obligation) scriptMode(qf bool) string {
 	p := o.ctx.NewPrinter()
 	var asserts []*Term
 	for _, p := range o.PC {
 		asserts = append(asserts, o.ctx.PosSkolem(p))
 	}
+	var goalT *Term
 	if o.Cover {
-		asserts = append(asserts, o.ctx.PosSkolem(o.Goal))
+		goalT = o.ctx.PosSkolem(o.Goal)
 	} else {
-		asserts = append(asserts, o.ctx.NegSkolem(o.Goal))
+		goalT = o.ctx.NegSkolem(o.Goal)
 	}
+	insts := o.ctx.instantiate(append(append([]*Term{}, asserts...), goalT))
+	if qf {
+		for i, a := range asserts {
+			asserts[i] = o.ctx.dropForalls(a)
+		}
+	}
+	asserts = append(asserts, insts...)
+	asserts = append(asserts, goalT)
 	var gv []*Term
 	for _, in := range o.Inputs {
 		if in.T.sort.K != SArr {
@@ -215,6 +242,10 @@ func solveOne(o *Obligation, dir string, timeoutS int, agree bool, seed int) {
 	mu.Lock()
 	t0 := time.Now()
 	script := o.script()
+	qfScript := ""
+	if !o.Cover && strings.Contains(script, "(forall ") {
+		qfScript = o.scriptMode(true)
+	}
 	if os.Getenv("GOVC_TIMING") != "" {
 		fmt.Fprintf(os.Stderr, "print %s %dms %dKB\n", o.Name, time.Since(t0).Milliseconds(), len(script)/1024)
 	}
@@ -226,6 +257,18 @@ func solveOne(o *Obligation, dir string, timeoutS int, agree bool, seed int) {
 	}
 	if o.Cover && timeoutS > 2 {
 		timeoutS = 2
+	}
+	if qfScript != "" && !strings.Contains(qfScript, "(forall ") {
+		// first attempt: hypotheses instantiated by the engine, no quantifier left for the solver
+		qt := timeoutS
+		if qt > 6 {
+			qt = 6
+		}
+		rq := runSolvers(dir, base+"_qf", qfScript, qt, false, seed)
+		if rq.status == "unsat" {
+			o.Status, o.Solver, o.TimeMS, o.Output = "unsat", rq.solver+"(ground-instantiated)", rq.ms, rq.output
+			return
+		}
 	}
 	r := runSolvers(dir, base, script, timeoutS, agree && !o.Cover, seed)
 	o.Status = r.status
